@@ -188,9 +188,49 @@ def likelihoods : Op
         .list [.str id, match reg with | none => .none | some evs => .list (evs.map eventVal)]))]
   | _ => none
 
+/-- one step of `C10.derived`: `["copy", h]`, `["wrap", h]`, `["set", h, dose, start, duration,
+    period|n, num|n]`; a handle that does not exist yet is a malformed request -/
+def parseDeriveOp (σ : Heap) : Val → Option (Except Err DeriveOp)
+  | .list [.str "copy", .int h] =>
+    if h < 0 ∨ h.toNat ≥ σ.nHandles then none else some (.ok (.copy h.toNat))
+  | .list [.str "wrap", .int h] =>
+    if h < 0 ∨ h.toNat ≥ σ.nHandles then none else some (.ok (.wrap h.toNat))
+  | .list [.str "set", .int h, dv, sv, duv, pv, nv] => do
+    if h < 0 ∨ h.toNat ≥ σ.nHandles then none
+    let dose ← Val.rat? dv
+    let start ← Val.rat? sv
+    let dur ← Val.rat? duv
+    let period ← Val.opt? Val.rat? pv
+    let num ← Val.opt? Val.int? nv
+    match regimenToEvent dose start dur period num with
+    | .error e => some (.error e)
+    | .ok e => some (.ok (.set h.toNat (some [e])))
+  | _ => none
+
+def runDerived : Heap → List Val → Option (Except Err Heap)
+  | σ, [] => some (.ok σ)
+  | σ, v :: rest =>
+    match parseDeriveOp σ v with
+    | none => none
+    | some (.error e) => some (.error e)
+    | some (.ok op) => runDerived (σ.step op) rest
+
+/-- `C10.derived ops`: one never-dosed model with one handle (handle 0), then the operations →
+    per handle what it reports (`n` = never dosed, else the events) -/
+def derived : Op
+  | [ov] => do
+    let ol ← ov.list?
+    match ← runDerived (Heap.init none) ol with
+    | .error e => some [errVal (errName e)]
+    | .ok σ => some [.str "ok", .list ((List.range σ.nHandles).map (fun h =>
+        match σ.regimenOf h with
+        | none => .none
+        | some evs => .list (evs.map eventVal)))]
+  | _ => none
+
 def ops : List (String × Op) :=
   [("C10.event", event), ("C10.pace", paceOp), ("C10.pacemulti", paceMultiOp),
    ("C10.table", table), ("C10.rows", rows), ("C10.setdata", setData), ("C10.surgery", surgery),
-   ("C10.frame", frame), ("C10.likelihoods", likelihoods)]
+   ("C10.frame", frame), ("C10.likelihoods", likelihoods), ("C10.derived", derived)]
 
 end ChiDriver.C10
